@@ -78,6 +78,12 @@ static void* parsec_datacopy_future_get_or_trigger_internal(parsec_base_future_t
     parsec_datacopy_future_t* d_fut = (parsec_datacopy_future_t*)future;
     if( !(d_fut->super.status & PARSEC_DATA_FUTURE_STATUS_COMPLETED) ){
         /* Try to trigger */
+#if defined(PARSEC_VERIF)
+        PARSEC_VERIF_YIELD(PARSEC_VERIF_SITE_FUTURE);
+#endif
+#if defined(PARSEC_VERIF)
+        PARSEC_VERIF_YIELD(PARSEC_VERIF_SITE_FUTURE);
+#endif
         parsec_atomic_lock(&d_fut->super.future_lock);
         if( !(d_fut->super.status & PARSEC_DATA_FUTURE_STATUS_TRIGGERED) ){
             d_fut->super.status |= PARSEC_DATA_FUTURE_STATUS_TRIGGERED;
@@ -85,6 +91,9 @@ static void* parsec_datacopy_future_get_or_trigger_internal(parsec_base_future_t
         }
         parsec_atomic_unlock(&d_fut->super.future_lock);
 
+#if defined(PARSEC_VERIF)
+        PARSEC_VERIF_YIELD(PARSEC_VERIF_SITE_FUTURE);
+#endif
         if( ! (d_fut->super.status & PARSEC_DATA_FUTURE_STATUS_COMPLETED) ){
             return NULL;
         }
@@ -136,6 +145,9 @@ static void* parsec_datacopy_future_get_or_trigger(parsec_base_future_t* future,
     assert(d_fut->nested_enable); /*second level future is able to create more nested versions */
 
     /* lock to check if nested future data matches requested specs */
+#if defined(PARSEC_VERIF)
+    PARSEC_VERIF_YIELD(PARSEC_VERIF_SITE_FUTURE);
+#endif
     parsec_atomic_lock(&d_fut->super.future_lock);
     if( NULL == d_fut->nested_futures ){
         d_fut->nested_futures = PARSEC_OBJ_NEW(parsec_list_t);
@@ -192,6 +204,9 @@ static void parsec_datacopy_future_set(parsec_base_future_t* future, void*data)
     parsec_datacopy_future_t* d_fut = (parsec_datacopy_future_t*)future;
     assert( !(d_fut->super.status & PARSEC_DATA_FUTURE_STATUS_COMPLETED) );
     d_fut->super.tracked_data = data;
+#if defined(PARSEC_VERIF)
+    PARSEC_VERIF_YIELD(PARSEC_VERIF_SITE_FUTURE);
+#endif
     d_fut->super.status |= PARSEC_DATA_FUTURE_STATUS_COMPLETED;
 }
 
